@@ -422,9 +422,8 @@ class Run:
             self.transitions[k] = self.transitions.get(k, 0) + 1
         if any(t[0] != t[2] or t[0] == "ready" for t in c.transitions):
             self.hashes.add(h64(cfg, direction, tuple(script)))
-        if c.h.thread_exc:
-            self.witness("thread_exception." + c.h.thread_exc[0]["type"], {"exc": c.h.thread_exc[:2], "cfg": cfg,
-                                                                          "script": list(script)})
+        if c.h.thread_exc:   # worker-thread survival is C14's property; only counted here
+            self.cov["thread_exceptions_seen_not_judged"] = self.cov.get("thread_exceptions_seen_not_judged", 0) + 1
         for k in ("select.select", "time.time", "socket.socket"):
             self.cov["shim_engaged"][k] = self.cov["shim_engaged"].get(k, 0) + c.h.counters[k]
         if len(self.samples) < 3 and len(c.trace) >= 2:
